@@ -751,14 +751,14 @@ def check_C05(ck):
     rng = random.Random(repr((ck.seed, "C05")))
     scripts = load_corpus("C05")
     meta = {}
-    n = tier_n(ck, 350, 6000)
-    maxsize = tier_n(ck, 300, 2000)
+    n = tier_n(ck, 350, 4000)
+    maxsize = tier_n(ck, 300, 900)
     for i in range(n):
         pol = rng.choice(["fast", "checked", "checked", "indirect", "backward"])
         fam = rng.choice(ID_FAMILIES)
         r = rng.random()
         replace_all = rng.random() < 0.25      # unload everything, load a disjoint small set
-        size = rng.randint(1, 4) if replace_all else 0 if r < 0.03 else rng.randint(1, 12) if r < 0.5 else rng.randint(13, 80) if r < 0.9 else rng.randint(81, maxsize)
+        size = rng.randint(1, 4) if replace_all else 0 if r < 0.03 else rng.randint(1, 12) if r < 0.5 else rng.randint(13, 80) if r < 0.9 else rng.randint(81, min(300, maxsize)) if r < 0.985 else rng.randint(min(300, maxsize), maxsize)
         pool = [x[0] for x in gen.make_ids(rng, size + 40, pol, fam)]
         live = {}
         ever = []
